@@ -337,6 +337,9 @@ func vh02ClientRun(o *vhOut, what string, msize uint32, stream []byte, pend []vh
 				}
 			}
 		}
+		if ev.Kind == "reject" && c.broken != nil {
+			ev.Kind = "conn" // a connection error with no call left to tell: the client marks itself broken
+		}
 		evs = append(evs, ev)
 		if ev.Kind == "conn" || ev.Kind == "panic" {
 			break
